@@ -1,2 +1,3 @@
 import GeoVerif.Ops.Schedules
+import GeoVerif.Ops.Lcoe
 /-! Everything the driver needs (import-free models + ops). -/
